@@ -790,7 +790,7 @@ impl Prop for C03 {
         run(c, o)
     }
     fn rule() -> &'static str {
-        "proptest over three families. Body: EncodeBody for both roles x {identity,gzip,deflate,zstd} x per-response opt-out x codec {raw, prost} x buffer settings x 0-8 messages x source outcome {ends OK, Err(status) after p messages, message p over the encoding limit} x source Pending pattern; polled like hyper until the end and then 3 more times. Client wire: generated clients (4 shapes, raw/prost, send_compressed, accept_compressed subsets, origin with/without path prefix) against a raw h2 server (no tonic) over the in-memory pipe. Server wire: a raw h2 client (no tonic) against the generated tonic server with scripted handlers (OK, handler error, stream-item error), unknown paths, send_compressed subsets, grpc-accept-encoding offers. Oracle: independent frame parser (flag 0/1, big-endian length == payload length), payload == codec serialisation directly or after independent decompression + magic check for the announced grpc-encoding; server bodies end in exactly one trailers block with a decimal grpc-status and percent-encoded grpc-message, is_end_stream afterwards and nothing more; client bodies never carry trailers; requests are POST /prefix/pkg.Svc/Method with content-type application/grpc and te: trailers; responses are HTTP 200 application/grpc with grpc-status exactly once (body-less trailers-only or final trailers). Non-trivial: >=1 message and (compressed or error outcome or >=2 frames); every wire scenario. Wave-3 additions: server-side Server::timeout in the wire scenario (CANCELLED at the deadline, sent as trailers-only HEADERS with END_STREAM), a handler metadata entry named grpc-encoding (must not change what the frames are encoded with / announced as)."
+        "proptest over three families. Body: EncodeBody for both roles x {identity,gzip,deflate,zstd} x per-response opt-out x codec {raw, prost} x buffer settings x 0-8 messages x source outcome {ends OK, Err(status) after p messages, message p over the encoding limit} x source Pending pattern; polled like hyper until the end and then 3 more times. Client wire: generated clients (4 shapes, raw/prost, send_compressed, accept_compressed subsets, origin with/without path prefix) against a raw h2 server (no tonic) over the in-memory pipe. Server wire: a raw h2 client (no tonic) against the generated tonic server with scripted handlers (OK, handler error, stream-item error), unknown paths, send_compressed subsets, grpc-accept-encoding offers. Oracle: independent frame parser (flag 0/1, big-endian length == payload length), payload == codec serialisation directly or after independent decompression + magic check for the announced grpc-encoding; server bodies end in exactly one trailers block with a decimal grpc-status and percent-encoded grpc-message, is_end_stream afterwards and nothing more; client bodies never carry trailers; requests are POST /prefix/pkg.Svc/Method with content-type application/grpc and te: trailers; responses are HTTP 200 application/grpc with grpc-status exactly once (body-less trailers-only or final trailers). Non-trivial: >=1 message and (compressed or error outcome or >=2 frames); every wire scenario. Wave-3 additions: server-side Server::timeout in the wire scenario (CANCELLED at the deadline, sent as trailers-only HEADERS with END_STREAM), a handler metadata entry named grpc-encoding (must not change what the frames are encoded with / announced as). The encoder source may have a further item behind its error item (never sent); in the wire scenario the deadline may come only from the raw client's grpc-timeout header (server without a timeout of its own)."
     }
     fn assumptions() -> Vec<String> {
         vec!["handler error statuses never carry Code::Ok".into(), "a client body is not polled again after it failed (hyper resets the stream)".into()]
